@@ -56,7 +56,10 @@ def c19RetryOk (count delay : Nat) (ops : List TxOp) (log : List TxObs) : Bool :
       let cbTimes := log.filterMap (fun o => match o with
         | .cb t _ => if p < t ∧ t < p + (count + 1) * delay ∨ (delay = 0 ∧ t = p) then some t else none
         | _ => none)
-      let okHere := if live && silent then
+      -- (a Proceed after the context was cancelled re-arms the timer: the chain it starts may have ended
+      -- the transaction before this Proceed)
+      let ended := log.any fun o => match o with | .done t _ => t ≤ p | _ => false
+      let okHere := if live && !ended && silent then
           cbTimes == (List.range count).map (fun k => p + (k + 1) * delay) &&
           log.contains (.done (p + (count + 1) * delay) (some .noMoreRetries))
         else true
